@@ -279,7 +279,7 @@ theorem destroyed_in_trace {c : C} (hb : Bnd c) {k : Nat} {z : ConnRec} (hz : fi
 
 theorem step_live (c : C) (i : In) (h : c.dead = false) :
     step c i = (match i with
-      | .dropRef | .destroy _ => if (stepLive c i).dead then stepLive c i else reap (stepLive c i)
+      | .dropRef | .destroy _ | .holdRef => if (stepLive c i).dead then stepLive c i else reap (stepLive c i)
       | _ => stepLive c i) := by
   unfold step; rw [if_neg (by rw [h]; exact Bool.false_ne_true)]; cases i <;> rfl
 
